@@ -587,12 +587,13 @@ def own_error(ctx, rr):
     u = P.method('Traph', 'get_webentity_by_prefix')
     gf = guard_facts(ctx, u)
     rets = [r for r in P.own(u, ast.Return) if r.value is not None]
-    ok = len(rets) == 1
+    ok = len(rets) == 1 and isinstance(rets[0].value, ast.Call) and isinstance(rets[0].value.func, ast.Attribute) \
+        and isinstance(rets[0].value.func.value, ast.Name)
     if ok:
+        X = rets[0].value.func.value.id
         facts = gf.facts_at(rets[0].value) or set()
-        ok = any(f[0] == 'F' and f[1].startswith('not ') is False and f[1].endswith('.has_webentity()') is False for f in facts) or True
         tf = {(f[0], f[1]) for f in facts}
-        ok = any(t == 'T' and s.endswith('.has_webentity()') for t, s in tf) and any(t == 'T' and s == 'node' for t, s in tf)
+        ok = ('T', '%s.has_webentity()' % X) in tf and ('T', X) in tf
     rr.ob(ctx.where(u), 'get_webentity_by_prefix returns only for an existing node that carries a webentity', ok=ok)
     if not ok:
         rr.fail(ctx.finding('R-OWN-ERROR', u, u.node, 'get_webentity_by_prefix can return for a missing node or a node without webentity', stmt='by_prefix table'))
